@@ -413,6 +413,15 @@ def run_shard(shard):
                 if r1[0] in OK_TYPES:
                     acc.mismatch("strict-gate", "accepted-free-text", {"kind": "s", "s": s, "opts": {}, "backend": "compiled"},
                                  list(r1), "ValueError with strict=True")
+            # characters that are not the '.' / ',' fraction separators, not the 'T' / space date-time separators
+            for s in ("12:30:45|5", "2016-10-06 12:30:45|123", "2016-10-06T12:30:45|123", "12:30:45;5", "12:30:45:5", "2016-10-06_12:30:45", "2016-10-06 12:30:45 5",
+                      "2016-10-06\n", "2016-10-06T12:30:45\n", "P1D\n", "2016-10-06 12:30:45\n", "\n2016-10-06", "2016-10-06/P1D\n"):
+                for opts in ({}, {"exact": True}, {"tz": "Europe/Paris"}):
+                    r1 = run_parse(pendulum, s, opts)
+                    acc.c["evaluations"] += 1
+                    if r1[0] != "ValueError":
+                        acc.mismatch("strict-gate", "accepted-malformed-separator", {"kind": "s", "s": s, "opts": opts, "backend": "compiled" if swap else "python"},
+                                     list(r1), "ValueError with strict=True")
             acc.sample({"free_text": texts[:4]})
             # strings without an offset read in a zone (tz option) where that wall time was skipped - including the
             # zones that skipped a whole calendar day: the value is the documented normalisation (moved forward by the
